@@ -41,4 +41,25 @@ def checkEng (params lines : List String) : CaseResult :=
   let r := C01.check params lines
   { r with nontrivial := r.ok }
 
+/-- family c03bnd: a parallel block inside a sub-process with a boundary event whose signal arrives while the join is half
+full; params `n after interrupting`. Judged by the join's own clause: a token on every incoming flow (every upstream task
+answered) ⇒ the task behind the join is requested exactly once. -/
+def checkBnd (params lines : List String) : CaseResult := Id.run do
+  let some n := (params.head?.bind String.toNat?) | return { bad := ["c03bnd params"] }
+  let mut r : CaseResult := {}
+  let mut d0 := 0
+  let mut answered := 0
+  for ln in lines do
+    match words ln with
+    | ["obs", "task", "D0", _, _] => d0 := d0 + 1
+    | ["c03bnd", "answered", a, "of", _] => answered := a.toNat?.getD 0
+    | "harness-error" :: rest => r := { r with bad := ("harness-error " ++ " ".intercalate rest) :: r.bad }
+    | _ => pure ()
+  if answered == n then
+    if d0 == 0 then
+      r := { r with specs := s!"join_never_releases: every one of the {n} upstream tasks inside the sub-process was answered (a token on each incoming flow of the join), the task behind the join was never requested" :: r.specs }
+    if d0 > 1 then
+      r := { r with specs := s!"join_releases_twice: the task behind the join was requested {d0} times for one activation" :: r.specs }
+  return { r with nontrivial := answered == n }
+
 end Bpmn.Driver.C03
